@@ -126,3 +126,35 @@ func TestSendOnClosedPanics(t *testing.T) {
 	}
 	t.Log(found[0].Trace, found[0].Events)
 }
+
+// a loop that spins on Gosched terminates: the goroutine it waits for is preferred at every yield, the state
+// cache cuts the re-visited spin states, and a ticker nobody reads does not keep the clock running
+func TestGoschedSpinAndAbandonedTicker(t *testing.T) {
+	sc := &Scenario{Name: "spin", Bound: 2,
+		Body: func() {
+			flag := false
+			GoNamed("setter", func() { Yield(); flag = true })
+			tk := NewTicker(1000)
+			_ = tk
+			n := 0
+			for !flag {
+				Gosched()
+				n++
+			}
+			Event("spins", n > 0)
+		},
+		Check: func(r *Result) []Failure {
+			if r.Cap != "" || len(r.Events) != 1 {
+				return []Failure{{Key: "spin", Text: fmt.Sprint(r.Cap, r.Events)}}
+			}
+			return nil
+		}}
+	st, found := Explore(sc, Options{})
+	t.Logf("%+v", *st)
+	if len(found) != 0 {
+		t.Fatalf("unexpected failures: %+v", found)
+	}
+	if st.Execs > 2000 {
+		t.Fatalf("spin loop not cut: %d executions", st.Execs)
+	}
+}
